@@ -3,7 +3,7 @@
  *
  * When, in addition to OPENSMT_VERIF_TRACE, the environment variable OPENSMT_VERIF_SEARCH is set, the SAT engine appends
  * one record per change of its trail: "sq" enqueue (variable, position, first literal of its level?), "sk" truncation (new
- * size), "ss" start of a search() call (conflict limit, number of variables), "sr" restart (conflicts of this call, limit),
+ * size), "ss" start of a search() call (conflict limit, number of variables), "sr" restart (conflicts of this call, limit), "sc" conflict,
  * "se" end of a search() call (status).  Without the define every macro below expands to nothing.
  */
 #ifndef OPENSMT_VERIFSEARCH_H
